@@ -4,11 +4,13 @@
   between the books for the full keystore table and the books for the table without `w`), the wallet is flagged,
   the removal is QUEUED — or the finishing iteration has run and round 3's invariant `JQ` holds for the table without
   `w`.  Events covered inside the window: node events, iterations of the removal, process crashes while no notification
-  is pending (Start is then a no-op on the store and `initTaskChan` queues the removal again), the drain.
+  is pending (Start is then a no-op on the store and `initTaskChan` queues the removal again), the drain (which
+  terminates: `removeLoop_total`).
   Not covered (C08 has no theorem for them): follower steps on a partly deleted wallet — hence no `handle`, and no
   crash with a non-empty catch-up, inside a removal window.
 -/
 import MW.Lemmas.Deepen4Remove
+import MW.Lemmas.Deepen4RemTotal
 import MW.Lemmas.Deepen4Import
 namespace MW.Lemmas.Deepen4
 open MW MW.Model.Ledger MW.Model.Persist MW.Spec.Persist MW.Spec.Chain MW.Spec.Books MW.Lemmas.Ledger
@@ -284,29 +286,32 @@ theorem JR_removeStep {cfg : Cfg} {G : Block} (cr : Bool) {x : SysQ} {k : Skel} 
     rw [h1]
     exact Or.inr ⟨hQ, hgone, hnA⟩
 
-/-- REMOVEDRAIN closes the window, provided the worker's loop completes within its fuel -/
-theorem JR_removeDrain {cfg : Cfg} {G : Block} (cr : Bool) {x : SysQ} {k : Skel} {w : Wid} (fuel : Nat)
-    (hJ : JR cfg G x k w)
-    (hdone : (x.V.tasks.contains (.rem w) && !removeDone x.P w) = true →
-      (removeLoop cfg.limit cfg.n (envAt cfg.st x.chain) w (addrsOf x.V.keys w) fuel x.P x.V).isSome = true) :
-    JQ cfg.st G (stepT cfg cr x (.removeDrain w fuel)) { k with ks := AMap.erase k.ks w } := by
+theorem left_le_length (s : Store) (addrs : List Addr) : MW.Lemmas.RemoveProgress.left s addrs ≤ s.credits.length := by
+  unfold MW.Lemmas.RemoveProgress.left
+  exact List.length_filter_le _ _
+
+/-- REMOVEDRAIN closes the window: the worker's loop completes (`removeLoop_total`: under `Mid` no iteration fails and
+    every non-finishing one deletes a credit of the wallet) and ends in round 3's invariant for the table without `w` -/
+theorem JR_removeDrain {cfg : Cfg} {G : Block} (hl : cfg.limit > 0) (cr : Bool) {x : SysQ} {k : Skel} {w : Wid}
+    (hJ : JR cfg G x k w) :
+    JQ cfg.st G (stepT cfg cr x (.removeDrain w)) { k with ks := AMap.erase k.ks w } := by
   rcases hJ with hM | ⟨hQ, hgone, hnA⟩
   · have hM0 := hM
     obtain ⟨hc, hks, hkeys, hnW, hnA, ⟨r, hr, hrne⟩, ⟨stt, hst, hrm⟩, htask, ⟨X, hX, hMid, hv, hpre, hq0⟩, hqk, hql, hN, hcur, hoth, hother⟩ := hM
     have hnd : removeDone x.P w = false := by unfold removeDone; rw [hst]; rfl
     have hg : (x.V.tasks.contains (.rem w) && !removeDone x.P w) = true := by rw [htask, hnd]; rfl
-    have hsome := hdone hg
-    rw [hc, hkeys] at hsome
-    obtain ⟨⟨P', V'⟩, hl⟩ := Option.isSome_iff_exists.1 hsome
     have H := remHyp_of (chain := k.chain) hX hnA hnW hr hrne
-    obtain ⟨d1, _, d3⟩ := removeLoop_done (r := r) cfg.limit cfg.n hr H fuel hks hkeys hMid hst (others_owner hoth) hl
-    have h1 : stepT cfg cr x (.removeDrain w fuel) = { x with P := P', V := dropTask V' (.rem w) } := by
-      simp only [stepT, hg, if_true, hc, hkeys, hl]
+    have hsome := removeLoop_total (r := r) cfg.limit cfg.n hl hr H (x.P.led.credits.length + 1) (V := x.V) hks hkeys hMid hst
+      (Nat.lt_succ_of_le (left_le_length _ _))
+    obtain ⟨⟨P', V'⟩, hl'⟩ := Option.isSome_iff_exists.1 hsome
+    obtain ⟨d1, _, d3⟩ := removeLoop_done (r := r) cfg.limit cfg.n hr H _ hks hkeys hMid hst (others_owner hoth) hl'
+    have h1 : stepT cfg cr x (.removeDrain w) = { x with P := P', V := dropTask V' (.rem w) } := by
+      simp only [stepT, hg, if_true, hc, hkeys, hl']
     rw [h1]
     exact (remDone_JQ hM0 hX hv hpre hq0 (V' := dropTask V' (.rem w))
       ⟨d1.pks, d1.vkeys, d1.gone, d1.inv, d1.allReady, d1.others⟩ d3).jq
   · have hnd : removeDone x.P w = true := by unfold removeDone; rw [hgone]; rfl
-    have h1 : stepT cfg cr x (.removeDrain w fuel) = x := by
+    have h1 : stepT cfg cr x (.removeDrain w) = x := by
       simp only [stepT, hnd, Bool.not_true, Bool.and_false, Bool.false_eq_true, if_false]
     rw [h1]
     exact hQ
